@@ -250,7 +250,7 @@ def mon_c02(spec, rec):
                 key = "%s/best-outside-box" % spec["solver"]
                 if spec["solver"] == "NM" and moved:
                     key = "NelderMead/best-outside-box/constraints-move-stored-vertex"
-                if spec["solver"] == "Powell" and moved:
+                if spec["solver"] == "Powell" and moved and spec.get("pushing"):
                     key = "Powell/best-outside-box/non-idempotent-constraints-applied-twice"
                 out.append((key, "reported best %r (finite energy %r) lies outside %r" % (best, sn["bestEnergy"], box), {"op_index": si}))
                 break
@@ -395,6 +395,10 @@ def mon_c05(spec, rec):
             continue
         pre = sn["pre"]
         ran = (sn["n_cost_calls"] > pre["n_cost_calls"]) or (sn["n_cb"] > pre["n_cb"])
+        # the initial evaluation is made once: a solver that has evaluated its start point holds its record (Powell with a
+        # generation limit of 0 gets it from Finalize), so a later Step tests the stop conditions instead of starting over
+        if pre["n_stepmon"] == 0 and pre["n_cost_calls"] > 0 and ran and not any(o[0] in ("setstepmon",) for o in spec["ops"][:si + 1]):
+            out.append(("%s/initial-evaluation-repeated" % solver, "a Step re-ran the initial evaluation: %d cost calls had been made but the step monitor was empty" % pre["n_cost_calls"], {"op_index": si}))
         if pre["n_stepmon"] > 0 and "maxiter" in pre:
             reasons = []
             if pre["maxfun"] is not None and pre["evaluations"] >= pre["maxfun"]:
@@ -419,8 +423,18 @@ def mon_c05(spec, rec):
                     out.append(("%s/limit-resolution" % solver, "generation limit %r requested, %r in force" % (g, pre["maxiter"]), {"op_index": si}))
                 if e is not None and pre["maxfun"] != e:
                     out.append(("%s/limit-resolution" % solver, "evaluation limit %r requested, %r in force" % (e, pre["maxfun"]), {"op_index": si}))
+            if new_base is not None and new_base[2] is None and new_base[3] is not None and pre["maxiter"] is not None:
+                # new=True without a generation limit: the solver default (N * nPop * iterscale), counted from the call
+                npop_ = max(spec.get("npop", 1), spec["dim"], 4) if solver in ("DE", "DE2") else 1
+                dflt = spec["dim"] * npop_ * {"DE": 10, "DE2": 10, "NM": 200, "Powell": 1000}[solver]
+                # the default is resolved by the first stop test after the call (before or after an iteration), from the
+                # generation count at THAT moment: any count observed between the call and now is a legitimate base
+                j0 = max(j for j in range(si) if rec.snaps[j]["op"][0] == "setlimits")
+                bases = {new_base[0], pre["generations"]} | {rec.snaps[j]["generations"] for j in range(j0, si)}
+                if (pre["maxiter"] - dflt) not in bases and not any(o[0] == "setstepmon" for o in spec["ops"][:si + 1]):
+                    out.append(("%s/new-default-limit-resolution" % solver, "new=True without a generation limit: limit in force %r is not the default %d counted from any generation count since the call %r" % (pre["maxiter"], dflt, sorted(bases)), {"op_index": si}))
             if new_base is not None:
-                g0, e0, g, e = new_base
+                g0, e0, g, e = new_base[:4]
                 if g is not None and pre["maxiter"] != g0 + g:
                     out.append(("%s/new-limit-resolution" % solver, "new=True generation limit %r set at generation %d, but %r in force" % (g, g0, pre["maxiter"]), {"op_index": si}))
                 if e is not None and pre["maxfun"] != e0 + e:
